@@ -491,4 +491,49 @@ def withParam (p : Params) : Setter → Params
 /-- The parameters in force after a sequence of setter calls. -/
 def afterSetters (p : Params) (l : List Setter) : Params := l.foldl withParam p
 
+/-! ### dtype / tensor-shape bookkeeping of one `FourierFilter` object (`_compute_functions`, fourier_operations.py l.40-56)
+
+The object caches the `ifftshift`ed transfer function cast to the dtype of the last field (`_transfer_function`) and a
+scratch array per dtype and tensor shape (`internal_array`).  A call with a field of dtype `dt` and tensor shape `ts`
+recomputes the transfer function *from its source* when none is cached or the cached dtype differs, and reallocates the
+scratch array when none exists or its rank, dtype or tensor shape differ.  Driver op `dtypes`; compared with the
+attributes of the real object after every call of a session. -/
+
+inductive Dt where
+  | c64 | c128
+deriving Repr, DecidableEq
+
+structure FState where
+  tf : Option Dt := none                  -- dtype of the cached `_transfer_function`
+  arr : Option (Dt × List Nat) := none    -- dtype and tensor shape of `internal_array`
+deriving Repr, DecidableEq
+
+structure Call where
+  dt : Dt
+  ts : List Nat
+deriving Repr, DecidableEq
+
+/-- is the transfer function recomputed from its source by this call? -/
+def tfRecomputed (s : FState) (c : Call) : Bool :=
+  match s.tf with
+  | none => true
+  | some d => decide (d ≠ c.dt)
+
+/-- is the scratch array reallocated by this call? -/
+def arrRecomputed (s : FState) (c : Call) : Bool :=
+  match s.arr with
+  | none => true
+  | some (d, ts) => decide (ts.length ≠ c.ts.length) || decide (d ≠ c.dt) || decide (ts ≠ c.ts)
+
+def callStep (s : FState) (c : Call) : FState :=
+  { tf := if tfRecomputed s c then some c.dt else s.tf,
+    arr := if arrRecomputed s c then some (c.dt, c.ts) else s.arr }
+
+def runCalls (s : FState) (l : List Call) : FState := l.foldl callStep s
+
+/-- what the driver prints: per call the two recompute flags and the state after the call -/
+def traceCalls : FState → List Call → List (Bool × Bool × FState)
+  | _, [] => []
+  | s, c :: l => (tfRecomputed s c, arrRecomputed s c, callStep s c) :: traceCalls (callStep s c) l
+
 end HcipyVerif.NearField
